@@ -143,6 +143,11 @@ NEEDS.update({
  "R8_C19_2":"Int::try_random_bits(_with_precision) at exactly bit_length == BITS (sign bit cleared)",
  "R8_C19_3":"Uint::try_random_bits_with_precision with bit_length == 0 and bits_precision != BITS (precision error skipped)",
 })
+NEEDS.update({
+ "R8_C12_1":"NonZero::new on a zero BoxedUint of two or more limbs (trait Zero::is_zero compares against a one-limb zero)",
+ "R8_C12_2":"an RNG whose k-th request fails inside Odd::<BoxedUint>::random (returns Odd(0) instead of panicking)",
+ "R8_C12_3":"a non-hex character at an odd index next to a valid digit in Odd::from_{be,le}_hex (error marker narrowed to 8 bits)",
+})
 os.makedirs("/verif/seeded", exist_ok=True)
 rows=[]
 for name, needs in NEEDS.items():
